@@ -134,6 +134,10 @@ pub trait Scalar:
         }
         (self - o).abs_().le_(Self::k(k * f32::EPSILON) * m.abs_())
     }
+    /// equal up to a printed precision of `decimals` places: the symbolic build abstracts decimal rendering (a
+    /// printed number denotes its value, so this is `ident`); the native build compares within half a unit of
+    /// the last printed place (`slack` scales the bound for values computed from several re-read numbers)
+    fn close_dec(self, o: Self, decimals: i32, slack: f32) -> Self::B;
     /// the sum as `core::iter::Sum for f32` computes it
     fn sum<I: IntoIterator<Item = Self>>(it: I) -> Self {
         it.into_iter().fold(Self::k(-0.0), |a, b| a + b)
@@ -211,6 +215,16 @@ impl Scalar for f32 {
     fn same(self, o: f32) -> bool {
         self.to_bits() == o.to_bits()
     }
+    fn close_dec(self, o: f32, decimals: i32, slack: f32) -> bool {
+        if self.is_nan() || o.is_nan() {
+            return self.is_nan() && o.is_nan();
+        }
+        if self == o {
+            return true;
+        }
+        let half = 0.5 * 10f64.powi(-decimals) * 1.001;
+        ((self as f64) - (o as f64)).abs() <= (half + (o.abs() as f64) * 2.4e-7) * slack as f64
+    }
     fn shadow(self) -> f32 {
         self
     }
@@ -263,6 +277,9 @@ impl Scalar for Sf {
     }
     fn same(self, o: Sf) -> bool {
         Sf::same(self, o)
+    }
+    fn close_dec(self, o: Sf, _decimals: i32, _slack: f32) -> Bx {
+        Scalar::ident(self, o)
     }
     fn shadow(self) -> f32 {
         Sf::shadow(self)
